@@ -206,6 +206,7 @@ func specLegal(resp, offer Parameters) bool {
 
 //@ func bitsFromASCII
 //@   props C14 C15
+//@   locals i:int n:int ok:bool
 //@   ensures [ok]  result1 == specBitsText(p)
 //@   ensures [val] result1 ==> result0 == specBitsValue(p)
 //@   ensures [zero] !result1 ==> result0 == 0
